@@ -49,6 +49,10 @@ pub fn round<D: Ser>(d: &D) -> Result<D, String> {
 pub trait Obj: Any {
     /// C15: None = the type has no serde impl
     fn roundtrip(&self) -> Option<Result<Box<dyn Obj>, String>> { None }
+    /// a mutating method of the type (WeightedTreeIndex::update); false = the type is immutable
+    fn mutate(&mut self) -> bool { false }
+    /// a second value constructed from the current (possibly mutated) parameters, where those are exactly observable
+    fn rebuild_equal(&self) -> Option<Box<dyn Obj>> { None }
     fn sample(&self, r: &mut ScriptRng) -> Out;
     fn sample_iter(&self, r: &mut ScriptRng, k: usize) -> Vec<Out>;
     fn clone_obj(&self) -> Box<dyn Obj>;
@@ -98,6 +102,30 @@ fn bx<D, T>(d: D) -> Option<Box<dyn Obj>> where D: Distribution<T> + Clone + Par
     Some(Box::new(WX(d, std::marker::PhantomData::<T>)))
 }
 
+/// WeightedTreeIndex: the one mutable distribution type of the crate
+pub struct WTree<Wt: crate::tw::TW + Ser>(pub WeightedTreeIndex<Wt>) where WeightedTreeIndex<Wt>: Ser;
+impl<Wt: crate::tw::TW + Ser> Obj for WTree<Wt> where WeightedTreeIndex<Wt>: Ser {
+    #[cfg(feature = "with_serde")]
+    fn roundtrip(&self) -> Option<Result<Box<dyn Obj>, String>> { Some(round(&self.0).map(|d| Box::new(WTree(d)) as Box<dyn Obj>)) }
+    fn mutate(&mut self) -> bool {
+        // idempotent: set weight 0 to the constant 7 (an increase for most registry trees, a decrease for some)
+        if self.0.len() == 0 { return false; }
+        self.0.update(0, Wt::from_u64(7)).is_ok()
+    }
+    fn rebuild_equal(&self) -> Option<Box<dyn Obj>> {
+        if Wt::IS_FLOAT { return None; }      // get(i) is exact only for integer weights
+        let ws: Vec<Wt> = (0..self.0.len()).map(|i| self.0.get(i)).collect();
+        WeightedTreeIndex::<Wt>::new(ws.iter()).ok().map(|t| Box::new(WTree(t)) as Box<dyn Obj>)
+    }
+    fn sample(&self, r: &mut ScriptRng) -> Out { self.0.sample(r).into_out() }
+    fn sample_iter(&self, r: &mut ScriptRng, k: usize) -> Vec<Out> { (&self.0).sample_iter(r).take(k).map(|x| x.into_out()).collect() }
+    fn clone_obj(&self) -> Box<dyn Obj> { Box::new(WTree(self.0.clone())) }
+    fn eq_obj(&self, o: &dyn Obj) -> Option<bool> { o.as_any().downcast_ref::<WTree<Wt>>().map(|x| x.0 == self.0) }
+    fn dbg(&self) -> String { format!("{:?}", self.0) }
+    fn as_any(&self) -> &dyn Any { self }
+}
+fn bt<Wt: crate::tw::TW + Ser>(t: WeightedTreeIndex<Wt>) -> Option<Box<dyn Obj>> where WeightedTreeIndex<Wt>: Ser { Some(Box::new(WTree(t))) }
+
 /// Dirichlet: a MultiDistribution (sample via the Vec-returning API)
 pub struct WD32(pub Dirichlet<f32>);
 pub struct WD64(pub Dirichlet<f64>);
@@ -105,7 +133,8 @@ macro_rules! wd_impl { ($f:ty, $WD:ident) => {
 impl Obj for $WD {
     // Dirichlet carries serde_as attributes but derives neither Serialize nor Deserialize: no serde impl
     fn sample(&self, r: &mut ScriptRng) -> Out { Distribution::<Vec<$f>>::sample(&self.0, r).into_out() }
-    fn sample_iter(&self, r: &mut ScriptRng, k: usize) -> Vec<Out> { (0..k).map(|_| { let mut v = vec![0.0 as $f; self.0.sample_len()]; self.0.sample_to_slice(r, &mut v); v.into_out() }).collect() }
+    // sample_to_slice into ONE re-used buffer that starts out dirty: the result must not depend on its previous contents
+    fn sample_iter(&self, r: &mut ScriptRng, k: usize) -> Vec<Out> { let mut v = vec![0.625 as $f; self.0.sample_len()]; (0..k).map(|_| { self.0.sample_to_slice(r, &mut v); v.clone().into_out() }).collect() }
     fn clone_obj(&self) -> Box<dyn Obj> { Box::new($WD(self.0.clone())) }
     fn eq_obj(&self, o: &dyn Obj) -> Option<bool> { o.as_any().downcast_ref::<$WD>().map(|x| x.0 == self.0) }
     fn dbg(&self) -> String { format!("{:?}", self.0) }
@@ -186,7 +215,7 @@ macro_rules! float_entries { ($v:ident, $F:ty, $ft:expr, $WD:ident) => {{
     for (a, be) in [(1.0 as F, 0.0 as F), (2.0, 1.5), (1e2, -99.0), (1e-2, 0.0), (5.0, -4.0)] {
         ent!($v, "NormalInverseGaussian", $ft, "-", [a, be], NormalInverseGaussian::<F>::new(a, be).ok().and_then(b::<_, F>)); }
     let lam_max: F = if $ft == "f32" { 1e7 } else { 1e15 };
-    for (l, var) in [(0.5 as F, "Knuth"), (ulp_dn(12.0), "Knuth"), (12.0, "Rejection"), (ulp_up(12.0), "Rejection"), (100.0, "Rejection"), (100.25, "Rejection"), (lam_max, "Rejection"), (1e-3, "Knuth")] {
+    for (l, var) in [(0.5 as F, "Knuth"), (ulp_dn(12.0), "Knuth"), (12.0, "Rejection"), (ulp_up(12.0), "Rejection"), (100.0, "Rejection"), (100.25, "Rejection"), (lam_max, "Rejection"), (1e-3, "Knuth"), (if $ft == "f32" { 1e-9 } else { 1e-17f64 as F }, "Knuth")] {
         ent!($v, "Poisson", $ft, var, [l], Poisson::<F>::new(l).ok().and_then(b::<_, F>)); }
     let zn_max: F = if $ft == "f32" { 1e6 } else { 1e15 };
     for (n, s) in [(1.0 as F, 0.0 as F), (10.0, 0.0), (10.0, 1.0), (10.0, ulp_up(1.0)), (10.0, ulp_dn(1.0)), (1000.0, 0.5), (zn_max, 2.0), (10.0, 10.0), (1.0, 0.25), (2.0, 0.0)] {
@@ -232,7 +261,7 @@ macro_rules! float_entries { ($v:ident, $F:ty, $ft:expr, $WD:ident) => {{
         $v.push(Entry { family: "WeightedAliasIndex", ft: $ft, params: ws.iter().map(|&x| x as f64).collect(), variant: "-",
             make: Box::new(move || WeightedAliasIndex::<F>::new(w2.clone()).ok().map(|d| Box::new(WN(d, std::marker::PhantomData::<usize>)) as Box<dyn Obj>)) });
         $v.push(Entry { family: "WeightedTreeIndex", ft: $ft, params: ws.iter().map(|&x| x as f64).collect(), variant: "-",
-            make: Box::new(move || WeightedTreeIndex::<F>::new(w3.iter()).ok().and_then(b::<_, usize>)) });
+            make: Box::new(move || WeightedTreeIndex::<F>::new(w3.iter()).ok().and_then(bt::<F>)) });
     }
 }} }
 
@@ -254,7 +283,7 @@ macro_rules! float_tree_entries { ($v:ident, $F:ty, $ft:expr, $n:expr) => {{
         };
         let params: Vec<f64> = match mk() { Some(t) => (0..t.len()).map(|i| t.get(i) as f64).collect(), None => vec![] };
         $v.push(Entry { family: "WeightedTreeIndex", ft: $ft, params, variant: "after-updates",
-            make: Box::new(move || mk().and_then(b::<_, usize>)) });
+            make: Box::new(move || mk().and_then(bt::<$F>)) });
     }
 }} }
 
@@ -268,19 +297,20 @@ pub fn registry() -> Vec<Entry> {
     ent!(v, "StandardGeometric", "int", "-", [], bn::<_, u64>(StandardGeometric));
     for (n, p, var) in [(10u64, 0.0f64, "Constant"), (10, 1.0, "Constant"), (10, 0.3, "Binv"), (10, 0.7, "Binv flipped"), (19, 0.5, "Binv"), (100, 0.05, "Binv"),
                         (100, 0.3, "Btpe"), (100, 0.305, "Btpe"), (100, 0.7, "Btpe flipped"), (1000, 0.5005, "Btpe"), (21, 0.5, "Btpe"), (1000, 0.5, "Btpe"), (1u64 << 62, 0.5, "Btpe"),
-                        (16_000_000, 3.14e-10, "Poisson"), (u64::MAX, 1e-19, "Binv"), (1u64 << 40, 1e-12, "Binv"), (1u64 << 62, 1e-30, "Poisson"), (40, 0.25, "Btpe"),
+                        (16_000_000, 3.14e-10, "Binv"), (u64::MAX, 1e-19, "Poisson"), (1u64 << 40, 1e-12, "Binv"), (1u64 << 62, 1e-30, "Poisson"), (40, 0.25, "Btpe"),
                         (u64::MAX, 0.5, "Btpe"), (u64::MAX, 0.999, "Btpe flipped"),
                         // BINV with huge n (n*p < 10, 1-p != 1): the inverse-transform walk must not depend on n
                         (1u64 << 40, 3.0 / (1u64 << 40) as f64, "Binv"), (1u64 << 40, 8.0 / (1u64 << 40) as f64, "Binv"), (1u64 << 50, 0.5 / (1u64 << 50) as f64, "Binv"),
-                        (1u64 << 50, 6.0 / (1u64 << 50) as f64, "Binv"), (1u64 << 52, 3.5e-16, "Binv"), (1u64 << 45, 9.5 / (1u64 << 45) as f64, "Binv"), (1u64 << 63, 1e-18, "Binv"), (1u64 << 32, 2.5e-9, "Btpe")] {
+                        (1u64 << 50, 6.0 / (1u64 << 50) as f64, "Binv"), (1u64 << 52, 3.5e-16, "Binv"), (1u64 << 45, 9.5 / (1u64 << 45) as f64, "Binv"), (1u64 << 63, 1e-18, "Poisson"), (1u64 << 32, 2.5e-9, "Btpe")] {
         ent!(v, "Binomial", "int", var, [n, p], Binomial::new(n, p).ok().and_then(b::<_, u64>)); }
     // BINV with huge n: a grid of n*p in (0, 10) and p down to the resolution of 1 - p
     for e in [35u32, 40, 45, 50, 55] { for np in [0.5f64, 1.0, 2.0, 5.0, 9.0] {
         let n = 1u64 << e; let p = np / n as f64;
-        ent!(v, "Binomial", "int", "Binv huge n", [n, p], Binomial::new(n, p).ok().and_then(b::<_, u64>)); } }
+        let var = if 1.0 - p == 1.0 { "Poisson" } else { "Binv huge n" };     // 1 - p == 1: the Poisson limit is used
+        ent!(v, "Binomial", "int", var, [n, p], Binomial::new(n, p).ok().and_then(b::<_, u64>)); } }
     for k in 2..10u32 { let n = 1u64 << 52; let p = 1.5e-16 * k as f64;
         ent!(v, "Binomial", "int", "Binv p near resolution", [n, p], Binomial::new(n, p).ok().and_then(b::<_, u64>)); }
-    for p in [1.0f64, 0.9, 2.0 / 3.0, 0.66, 0.5, 0.25, 0.01, 1e-9, 0.0, 1e-17] {
+    for p in [1.0f64, 0.9, 2.0 / 3.0, 0.66, 0.5, 0.25, 0.01, 1e-3, 1e-5, 1e-7, 1e-9, 1e-10, 1e-11, 1e-12, 1e-13, 1e-14, 1e-15, 3e-16, 0.0, 1e-17] {
         ent!(v, "Geometric", "int", "-", [p], Geometric::new(p).ok().and_then(b::<_, u64>)); }
     for (nn, k, s, var) in [(10u64, 5u64, 5u64, "HIN"), (9, 3, 5, "HIN"), (9, 6, 4, "HIN"), (100, 30, 20, "HIN"), (100, 70, 80, "HIN"), (1000, 500, 500, "H2PE"), (1000, 501, 500, "H2PE"),
                             (10000, 5000, 300, "H2PE"), (10000, 7000, 9000, "H2PE"), (40, 20, 20, "H2PE"), (1u64 << 40, 1 << 39, 1000, "H2PE"), (50, 0, 10, "HIN"), (50, 50, 10, "HIN")] {
@@ -290,7 +320,7 @@ pub fn registry() -> Vec<Entry> {
         v.push(Entry { family: "WeightedAliasIndex", ft: "int", params: ws.iter().map(|&x| x as f64).collect(), variant: "-",
             make: Box::new(move || WeightedAliasIndex::<u32>::new(w2.clone()).ok().map(|d| Box::new(WN(d, std::marker::PhantomData::<usize>)) as Box<dyn Obj>)) });
         v.push(Entry { family: "WeightedTreeIndex", ft: "int", params: ws.iter().map(|&x| x as f64).collect(), variant: "-",
-            make: Box::new(move || WeightedTreeIndex::<u32>::new(w3.iter()).ok().and_then(b::<_, usize>)) });
+            make: Box::new(move || WeightedTreeIndex::<u32>::new(w3.iter()).ok().and_then(bt::<u32>)) });
     }
     v
 }
